@@ -131,8 +131,11 @@ def gen_history(r, cfg, nops, reopen=False, freeall=None):
         elif k < 0.88:
             ops.append("status #%d = %d" % (r.randrange(1000), r.randrange(2)))
         elif reopen and k < 0.93:
-            ops.append(r.choice(["sync", "reopen", "reopen", "reopen", "clear 0", "clear 1"]))
-            if ops[-1].startswith(("reopen", "clear")):
+            o = r.choice(["sync", "reopen", "reopen", "reopen", "clear 0", "clear 1"])
+            if o == "reopen":
+                ops.append("check")      # the oracle compares the states right before and right after
+            ops.append(o)
+            if o != "sync":
                 ops.append("check")
                 since = 0
         else:
@@ -394,7 +397,7 @@ def check_state(sh, kv, line):
             if sh.closed_size != want:
                 raise Fail("trim-size", "file has %d bytes after close, expected %d (last used byte %d, size before %d, trim %s)" % (
                     sh.closed_size, want, last, pre["fsize"], "off" if cfg.notrim else "on"))
-            if pre["crz"] != kv["crz"]:
+            if pre["crz"] != kv["crz"] and pre["tree"] != "-":     # a file without any free block is closed without writing the header
                 raise Fail("reopen-meta", "allocation statistics changed over reopen: %s -> %s" % (pre["crz"], kv["crz"]))
             if cfg.notrim and (pre["runs"] != kv["runs"] or pre["bmoff"] != kv["bmoff"]):
                 raise Fail("reopen-state", "free space changed over close/reopen")
@@ -442,6 +445,10 @@ def case_scan(r):
             ops.append("scan next %s %d %d" % (hexs, a, b))
             hit = next((i for i in range(a, b) if bits[i]), None)
         else:
+            # lower bound as the code uses it: 0, or not above the start of the word that holds bit a-0
+            # (otherwise `size -= bit` wraps around in _fsm_find_prev_set_bit; no caller does that)
+            if b > a - a % 64:
+                b = r.choice([0, a - a % 64, r.randrange(0, a - a % 64 + 1)])
             ops.append("scan prev %s %d %d" % (hexs, a, b))
             hit = next((i for i in range(a - 1, b - 1, -1) if bits[i]), None)
         exp.append("scan 0 0" if hit is None else "scan 1 %d" % hit)
